@@ -177,3 +177,19 @@ Theorem C02_file_row_refusals_agree : forall d o fc src dst e,
   dest_outcome SFile d o = Refused.
 Proof. exact file_row_refusals_agree. Qed.
 Print Assumptions C02_file_row_refusals_agree.
+
+(* ---- an operand that is a symbolic link (no --dereference) is re-created as a link and NOT descended into: the walk is
+   that one action (model), and the iterator follows a root link exactly when dereferencing (translated source) — what
+   lies where the fresh link points, inside the destination or anywhere else, is never written through it ---- *)
+From XcpProofs Require Import WalkerProofs XWalker.
+From Coq Require Import String.
+Theorem C02_link_operand_is_one_action : forall cfg keep dexists text res,
+  w_deref cfg = false -> keep [] (tree_is_dir (TLink text res)) = true ->
+  walk cfg keep dexists [] (TLink text res) =
+    if w_no_clobber cfg && dexists [] then ([WErr 1 []], false) else ([WLink [] text], true).
+Proof. exact link_operand_is_one_action. Qed.
+Theorem C02_src_root_link_followed_iff_deref :
+  List.nth 2 x_walker_iterator ""%string = "follow_root_links(config.dereference)"%string.
+Proof. destruct x_walker_shape_ok as (_ & _ & Hi & _). rewrite Hi. reflexivity. Qed.
+Print Assumptions C02_link_operand_is_one_action.
+Print Assumptions C02_src_root_link_followed_iff_deref.
